@@ -45,7 +45,7 @@ TRUSTED_BASE = [
     "assumed contract of pysat (IDPool.id injective; CNF.append; Solver.solve sound and complete for the added clauses; get_model indexes every variable occurring in a clause) -- python-sat is absent, the shim is written to this contract",
     "contract of Circuit.add_subcircuit (contracts/layer2.py): proved on the body for calls with 0 or 1 connection (tasks layer2/*); ASSUMED for calls with >= 2 connections (bounded-checked by C06)",
     "assumed contract of networkx.relabel_nodes(copy=True) (injective mapping obligation is generated at the call) and DiGraph.update",
-    "meta-lemmas: M1, M2 (Lean-checked, /verif/lean), M5 (consistency is invariant under graph isomorphism), M6 (a valuation of the nodes extends to the parity auxiliaries by structural recursion)",
+    "meta-lemmas: M1, M2, M6, M7, M8 (Lean-checked, /verif/lean/MetaLemmas.lean; M8 = an invariant preserved by every operation holds after every history), M5 (consistency is invariant under graph isomorphism), M6 (a valuation of the nodes extends to the parity auxiliaries by structural recursion)",
     "z3 5.1 (python API) / z3 4.8.12 / cvc5 1.0.3 as back ends",
     "pyvc itself (the VC generator written for this task: /verif/pyvc)",
     "assumed contracts of networkx.DiGraph operations and Python containers (pyvc/models.py), conformance-tested, not verified",
@@ -76,7 +76,9 @@ L2_BB = ["layer2/add_blackbox[no connections]"]
 PROPERTY_TASKS["C06"] = L2_TASKS + L2_BB + ["C07/fill_blackbox on the body"]  # that task also carries the splice postconditions
 PROPERTY_TASKS["C07"] = PROPERTY_TASKS["C07"] + ["C07/add_blackbox", "C07/add_subcircuit[no connections]", "C07/add_subcircuit[1 connection]",
                                                  "C07/add_blackbox[connections] on the body", "C07/add_subcircuit[connections] on the body",
-                                                 "C07/fill_blackbox on the body", "C07/set_output[list] on the body"]
+                                                 "C07/fill_blackbox on the body", "C07/set_output[list] on the body",
+                                                 "C07/add_blackbox[list connections] on the body", "C07/add_subcircuit[list connections] on the body",
+                                                 "C07/add_subcircuit[connections,strip_io=False] on the body", "C07/base-case"]
 TASK_FILES["layer2"] = "circuitgraph/circuit.py"
 TASK_FILES["C05"] = "circuitgraph/tx.py"
 DEPENDS_ON["C13"] = [("Circuit.add", "C07"), ("Circuit.add_subcircuit with two connections (contract assumed for >= 2 connections)", "C06")]
